@@ -74,6 +74,18 @@ def py_bsel(b, variant=0):
     raise core.MachineryError("unknown bsel %r" % b)
 
 
+def with_names(sc, cfgseed):
+    """The scenario with its abstract field names replaced by concrete ones (gamma.names_map): prefix pairs, parentheses,
+    blanks; the unknown name becomes a proper prefix of a known one."""
+    nm = gamma.names_map(cfgseed, list(sc["fields"]))
+    f = dict(sc["fsel"])
+    if f["k"] == "name":
+        f["v"] = nm.get(f["v"], f["v"])
+    elif f["k"] == "nlist":
+        f["v"] = [nm.get(x, x) for x in f["v"]]
+    return dict(sc, fields=[nm[x] for x in sc["fields"]], fsel=f)
+
+
 class World(object):
     """Cache of concretised inputs: one directory per (layout, ndims, cfgseed)."""
 
@@ -167,6 +179,7 @@ def expect_json(e):
 
 
 def run_read(chk, world, sc, ndims, cfgseed, payload, variant=0, use_iter=False):
+    sc = with_names(sc, cfgseed)
     d, ap, reg, pck = world.get(sc, ndims, cfgseed, payload)
     fsel, bsel = py_fsel(sc["fsel"]), py_bsel(sc["bsel"], variant)
     obs = observe_read(pck, ap, reg, fsel, sc["lv"], bsel, use_iter)
@@ -185,6 +198,7 @@ def run_read(chk, world, sc, ndims, cfgseed, payload, variant=0, use_iter=False)
 
 
 def run_iter(chk, world, sc, ndims, cfgseed, payload):
+    sc = with_names(sc, cfgseed)
     d, ap, reg, pck = world.get(sc, ndims, cfgseed, payload)
     fsel = py_fsel(sc["fsel"])
     got = []
@@ -293,6 +307,7 @@ def reuse_phase(chk, scenarios, world):
         ndims = 2 if n % 4 == 3 else 3
         payload = "wild" if n % 2 == 0 else "tame"
         cfgseed = chk.rng.randrange(1 << 30)
+        seq = [with_names(x, cfgseed) for x in seq]
         d, ap, reg, pck = world.get(seq[0], ndims, cfgseed, payload)
         fsel = py_fsel(seq[0]["fsel"])
         v = None
